@@ -5,6 +5,7 @@
 package mcp
 
 import (
+	"bytes"
 	"context"
 	"encoding/json"
 	"fmt"
@@ -140,11 +141,54 @@ func applySchema(data json.RawMessage, resolved *jsonschema.Resolved, forOutput 
 	if !appliedDefaults {
 		return data, nil
 	}
-	out, err := json.Marshal(unmarshaled)
+	// The value validated above holds every number as a float64, which cannot
+	// represent all integers beyond 2^53. The result is what the handler (or
+	// the client) gets to see, so build it from a decoding that keeps numbers
+	// as they were written, with the defaults applied to that one as well.
+	var exact any
+	if len(data) > 0 {
+		dec := json.NewDecoder(bytes.NewReader(data))
+		dec.UseNumber()
+		if err := dec.Decode(&exact); err != nil {
+			return nil, fmt.Errorf("marshalling with defaults: %v", err)
+		}
+	}
+	if _, ok := exact.(map[string]any); !ok {
+		exact = make(map[string]any)
+	}
+	exact = floatsExceptIntegerLiterals(exact)
+	if err := resolved.ApplyDefaults(&exact); err != nil {
+		return nil, fmt.Errorf("applying schema defaults:\n%w", err)
+	}
+	out, err := json.Marshal(exact)
 	if err != nil {
 		return nil, fmt.Errorf("marshalling with defaults: %v", err)
 	}
 	return out, nil
+}
+
+// floatsExceptIntegerLiterals replaces every json.Number in v that is not
+// written as a plain integer (it has a fraction or an exponent) by its float64
+// value, which is how such a number has always been handed on: 1.0 and 1e2
+// keep being accepted for integer fields.
+func floatsExceptIntegerLiterals(v any) any {
+	switch v := v.(type) {
+	case json.Number:
+		if strings.ContainsAny(string(v), ".eE") {
+			if f, err := v.Float64(); err == nil {
+				return f
+			}
+		}
+	case map[string]any:
+		for k, e := range v {
+			v[k] = floatsExceptIntegerLiterals(e)
+		}
+	case []any:
+		for i, e := range v {
+			v[i] = floatsExceptIntegerLiterals(e)
+		}
+	}
+	return v
 }
 
 // isObjectJSON reports whether data is a JSON object (i.e., starts with '{'
